@@ -18,6 +18,7 @@ else:
     loader.install()
 
 from onsager import crystal, OnsagerCalc   # noqa: E402
+from onsager import GFcalc as GFmod   # noqa: E402
 from symx import core, harness, contracts, shim   # noqa: E402
 from symx.core import ENG, Sym   # noqa: E402
 from symx.shim import SymArray   # noqa: E402
@@ -233,6 +234,48 @@ def scenario(cfg, kind, large):
     return fn
 
 
+def gf_inputs(calc, k):
+    """concrete vacancy data sets for the validation of the Green-function environment contract; sets 1 and 2 share every
+    symmetrised rate (transition state = mean of the end points + constant) but differ in site energies / escape rates"""
+    nW, nT = len(calc.sitelist), len(calc.om0_jn)
+    ene = [np.zeros(nW), 0.75 * np.arange(nW), 0.5 * np.arange(nW)[::-1], 0.3 * np.arange(nW) ** 2][k]
+    eneT = np.zeros(nT)
+    for t, jl in enumerate(calc.om0_jn):
+        (i, j), dx = jl[0]
+        eneT[t] = 0.5 * (ene[calc.invmap[i]] + ene[calc.invmap[j]]) + 1.0 + 0.125 * t
+    return np.ones(nW), ene, np.ones(nT), eneT
+
+
+def gf_state(gf, calc):
+    out = [np.array(gf.Diffusivity(), dtype=float).copy(), np.array(gf.biascorrection(), dtype=float).copy()]
+    out.append(np.array([gf(calc.GFstarset.states[s[0]].i, calc.GFstarset.states[s[0]].j, calc.GFstarset.states[s[0]].dx)
+                         for s in calc.GFstarset.stars[:8]]))
+    return out
+
+
+def gf_contract(cfg):
+    """validation of the environment stub used above: the REAL Green-function calculator's results are a function of the
+    arguments of the last SetRates only (whatever was set before), compared with a freshly built calculator; concrete runs"""
+    def fn(src=None):
+        calc = get_calc(cfg)
+        name = 'gf-contract:' + cfg
+        gf = getattr(calc, 'GFcalc_real', calc.GFcalc)
+        obs = []
+        info = {'inputs': {}, 'replayer': 'gfcontract', 'extra': {'cfg': cfg}}
+        seq = [0, 1, 2, 1, 3, 0]
+        for n, k in enumerate(seq):
+            args = gf_inputs(calc, k)
+            gf.SetRates(*args)
+            got = gf_state(gf, calc)
+            fresh = GFmod.GFCrystalcalc(calc.crys, calc.chem, calc.sitelist, calc.om0_jn, getattr(calc, 'NGFmax', 4))
+            fresh.SetRates(*args)
+            want = gf_state(fresh, calc)
+            ok = all(np.allclose(a, b, rtol=1e-9, atol=1e-12) for a, b in zip(got, want))
+            obs.append(('%s:step%d-input%d' % (name, n, k), bool(ok), dict(info, sig='gf-contract:function-of-last-SetRates', witnessed=True)))
+        return obs
+    return fn
+
+
 def replay(rec):
     e = rec['extra']
     return harness.run_laws_concrete(scenario(e['cfg'], e['kind'], e['large']), rec)
@@ -250,6 +293,8 @@ def sections(tier):
                     continue
                 secs.append(S('hist:%s:%s:%s' % (cfg, kind, 'large' if large else 'std'), scenario(cfg, kind, large),
                               budget_s=120 if tier == 'quick' else 1500, timeout_ms=10000 if tier == 'quick' else 20000, replayer='hist', config=cfg, maxpaths=400))
+    for cfg in (['rect2-1', 'square-1'] if tier == 'quick' else ['rect2-1', 'square-1', 'rumple2d-1', 'sc-1']):
+        secs.append(S('gf-contract:' + cfg, gf_contract(cfg), budget_s=120, timeout_ms=10000, replayer='gfcontract', config=cfg, maxpaths=2))
     return secs
 
 
@@ -257,7 +302,7 @@ def main():
     import warnings
     warnings.simplefilter('ignore')
     if REPLAY:
-        run.replay_main('C14', {'hist': replay})
+        run.replay_main('C14', {'hist': replay, 'gfcontract': lambda rec: harness.run_laws_concrete(lambda src: gf_contract(rec['extra']['cfg'])(src), rec)})
     V = OnsagerCalc.VacancyMediated
     chk = run.Check(
         'C14',
